@@ -312,7 +312,10 @@ func (muxerSlice) Gen(r *rand.Rand, _ int, tier string) ([]string, []string) {
 			default:
 				// VP9 / AV1 / H265: parameters travel with every key frame / sequence header and only there
 				pic = true
-				if t.par > 2 {
+				if t.codec == "vp9" && t.par > 3 {
+					t.par = 1 + t.par%3
+				}
+				if t.codec != "vp9" && t.par > 2 {
 					t.par = 1 + t.par%2
 				}
 				if t.codec == "h265" {
